@@ -67,6 +67,7 @@ REJECT = [
     ("Embedding", {"scale_grad_by_freq": True}), ("Embedding", {"sparse": True}),
     ("CrossEntropyLoss", {"weight": "TENSOR"}), ("CrossEntropyLoss", {"size_average": False}),
     ("CrossEntropyLoss", {"reduce": False}), ("CrossEntropyLoss", {"label_smoothing": 0.1}),
+    ("CrossEntropyLoss", {"reduction": "none"}),
 ]
 
 
@@ -313,7 +314,16 @@ def _simple(case: Dict[str, Any]) -> Dict[str, Any]:
                 twin.load_state_dict(m.state_dict())
                 twin.train(train)
                 torch.manual_seed(7)
-                ref_twin = twin(*[a.detach() for a in args])
+                mlt = o.get("mult", 1.0)
+                targs = [a.detach() for a in args]
+                if mlt != 1.0 and cls in ("GELU", "SiLU", "Softmax", "CrossEntropyLoss"):
+                    # the documented temperature: applied to the twin's input (and divided out for the activations)
+                    targs[0] = targs[0] * mlt
+                    ref_twin = twin(*targs)
+                    if cls in ("GELU", "SiLU"):
+                        ref_twin = ref_twin / mlt
+                else:
+                    ref_twin = twin(*targs)
         except Exception:  # noqa - twin rejects this configuration/input
             return {"skipped": "torch twin rejects"}
         torch.manual_seed(7)
@@ -340,7 +350,7 @@ def _simple(case: Dict[str, Any]) -> Dict[str, Any]:
     if ref_twin is not None:
         if tuple(ref_twin.shape) != tuple(ym.shape):
             viol.append({"key": ident + "|shape_differs_from_torch_twin", "msg": f"options={o}: {tuple(ym.shape)} vs nn.{cls} {tuple(ref_twin.shape)}"})
-        elif o.get("mult", 1.0) == 1.0:
+        elif o.get("mult", 1.0) == 1.0 or cls in ("GELU", "SiLU", "Softmax", "CrossEntropyLoss"):
             s, res = fit(ym, ref_twin)
             if s is not None and torch.isfinite(ref_twin).all() and (res > 2e-5 or s <= 0):
                 viol.append({"key": ident + "|not_proportional_to_torch_twin", "msg": f"options={o}: s={s!r} residual={res:.3e}"})
@@ -712,7 +722,13 @@ def run_case(case: Dict[str, Any]) -> Dict[str, Any]:
             kw["weight"] = torch.ones(5)
         base = {"SiLU": {}, "Dropout": {}, "Embedding": {"num_embeddings": 5, "embedding_dim": 3}, "CrossEntropyLoss": {}}[cls]
         try:
-            getattr(uu, cls)(**base, **kw)
+            mod = getattr(uu, cls)(**base, **kw)
+            if "reduction" in kw:
+                # (an unimplemented VALUE of an implemented option: the pinned tree rejects it at the first call -
+                # accepted as a rejection; what must not happen is a silently different reduction)
+                y = mod(torch.randn(4, 5), torch.tensor([1, 2, 3, 4]))
+                return {"violations": [{"key": f"{cls}|unsupported_option_accepted|{','.join(case['kw'])}",
+                                        "msg": f"{cls}({case['kw']}) constructed and returned shape {tuple(y.shape)}"}], "outcome": "accepted"}
             return {"violations": [{"key": f"{cls}|unsupported_option_accepted|{','.join(case['kw'])}",
                                     "msg": f"{cls}({case['kw']}) constructed"}], "outcome": "accepted"}
         except Exception:  # noqa
